@@ -183,6 +183,9 @@ type Options struct {
 	Patterns []string // goderive package patterns (default ./p)
 	Args     []string // goderive flags
 	Timeout  time.Duration
+	// Post runs after a harness run without violations, before the case directory is removed;
+	// rerun executes the same harness binary again (same seed) with extra environment.
+	Post func(dir string, rerun func(extraEnv []string) gorun.Result)
 }
 
 // RunCase materialises the subject, runs goderive and the harness, and merges the harness report.
@@ -263,6 +266,11 @@ func RunCase(c *pkit.Ctx, rt *rapid.T, s *Subject, o Options) *Outcome {
 	if hr.Exit != 0 && len(viol) == 0 {
 		c.Rep.Inconcl("harness exited %d without a violation: %s", hr.Exit, pkit.Trunc(out.HarnessOut, 1500))
 		return out
+	}
+	if len(viol) == 0 && o.Post != nil {
+		o.Post(dir, func(extra []string) gorun.Result {
+			return gorun.Run(filepath.Join(dir, "h"), to, append(append([]string{}, env...), extra...), filepath.Join(dir, "h.test"), args...)
+		})
 	}
 	if len(viol) > 0 {
 		v := viol[0]
